@@ -366,6 +366,8 @@ class Filterbank(ABC):
         maximum dispersion delay.
         """
         chan_delays = self.header.get_dmdelays(dm)
+        # The kernel needs non-negative delays: refer them to the earliest channel.
+        chan_delays = chan_delays - min(0, int(chan_delays.min()))
         max_delay = int(chan_delays.max())
         gulp = max(2 * max_delay, gulp)
         nsamps_sel = (self.header.nsamples - start) if nsamps is None else nsamps
